@@ -195,12 +195,14 @@ func stRunScenario(sc stScenario, idx int64) *stRun {
 			rec.add("create.err", sctx.Err())
 			return nil, sctx.Err()
 		}
-		if n == 1 && (sc.creation == "err" || sc.creation == "err-then-ok") {
+		if (n == 1 && (sc.creation == "err" || sc.creation == "err-then-ok")) || (n >= 2 && sc.creation == "err") {
 			rec.add("create.err", creationErr)
-			return nil, creationErr
-		}
-		if n >= 2 && sc.creation == "err" {
-			rec.add("create.err", creationErr)
+			if idx%2 == 1 {
+				// a failing streamer (e.g. a chained interceptor) may hand back a typed-nil
+				// stream next to its error: the error decides, the value must not be kept
+				rec.add("create.typed-nil", nil)
+				return (*stUnder)(nil), creationErr
+			}
 			return nil, creationErr
 		}
 		under = &stUnder{r: rec, ctx: sctx, hdr: metadata.Pairs("k", "v"), failFirstSend: sc.firstSendErr}
@@ -515,6 +517,8 @@ func stRunScenario(sc stScenario, idx int64) *stRun {
 				h.fail("C12.first-message", "missing", "the streamer was invoked without the message in the gcpContext")
 				return h
 			}
+		case "create.typed-nil":
+			h.hit("C12.failed-creation-returns-typed-nil")
 		case "create.badargs":
 			h.fail("C12.streamer-args", "", "streamer invoked with different arguments: %v", e.arg)
 			return h
